@@ -111,9 +111,9 @@ impl Popen {
         final(self).child_state == old(self).child_state && final(self).detached == old(self).detached,
         res is Ok ==> {
             let (cin, cout, cerr) = res->Ok_0;
-            &&& wired(stdin, final(self).stdin, cin, true, StandardStream::Input) //[C05]
-            &&& wired(stdout, final(self).stdout, cout, false, StandardStream::Output) //[C05]
-            &&& wired(stderr, final(self).stderr, cerr, false, StandardStream::Error) //[C05]
+            &&& wired(stdin, final(self).stdin, cin, true, StandardStream::Input) //[C05,C13]
+            &&& wired(stdout, final(self).stdout, cout, false, StandardStream::Output) //[C05,C13]
+            &&& wired(stderr, final(self).stderr, cerr, false, StandardStream::Error) //[C05,C13]
             // merge: the merged stream is the very same open file as the other output stream, whatever that is
             &&& (stderr is Merge ==> final(self).stderr.is_none() && cerr.is_some() && cerr.unwrap().obj@ == effective(cout, StandardStream::Output)
                     && (stdout is None ==> cout.is_some() && cout.unwrap().obj@ == std_obj(StandardStream::Output))) //[C05]
@@ -177,9 +177,9 @@ impl Popen {
         final(w).img.failed == Some(posix::errcode(r->Err_0)), //[C07]
         final(w).img.reported.is_none(),
         // if the exec was attempted, the child image was at that moment exactly what was asked for
-        final(w).img.exec_tried.is_some() ==> fd_matches(final(w).img.fd0, child_ends.0, StandardStream::Input), //[C05]
-        final(w).img.exec_tried.is_some() ==> fd_matches(final(w).img.fd1, child_ends.1, StandardStream::Output), //[C05]
-        final(w).img.exec_tried.is_some() ==> fd_matches(final(w).img.fd2, child_ends.2, StandardStream::Error), //[C05]
+        final(w).img.exec_tried.is_some() ==> fd_matches(final(w).img.fd0, child_ends.0, StandardStream::Input), //[C05,C13]
+        final(w).img.exec_tried.is_some() ==> fd_matches(final(w).img.fd1, child_ends.1, StandardStream::Output), //[C05,C13]
+        final(w).img.exec_tried.is_some() ==> fd_matches(final(w).img.fd2, child_ends.2, StandardStream::Error), //[C05,C13]
         final(w).img.exec_tried.is_some() ==> final(w).img.cwd == (match cwd { Some(c) => Some(c.b@), None => None::<Seq<u8>> }), //[C06]
         final(w).img.exec_tried.is_some() ==> final(w).img.uid == setuid && final(w).img.gid == setgid && final(w).img.new_pgrp == setpgid, //[C06]
         final(w).img.exec_tried.is_some() ==> final(w).img.sig_clean, //[C18]
@@ -240,10 +240,10 @@ impl Popen {
         argv@.len() == 0 ==> r is Err && r->Err_0 is LogicError && final(w).s == old(w).s, //[C05,C16]
         config.stdin is Merge || (config.stdout is Merge && config.stderr is Merge) ==> r is Err && final(w).s.forks == old(w).s.forks, //[C05]
         // a handle exists only for a started program ...
-        r is Ok ==> final(w).s.launch.is_none() && r->Ok_0.child_state == (ChildState::Running { pid: final(w).s.child_pid, ext: () }) && r->Ok_0.detached == config.detached, //[C07]
-        r is Ok ==> r->Ok_0.stdin.is_some() == (config.stdin is Pipe) && r->Ok_0.stdout.is_some() == (config.stdout is Pipe) && r->Ok_0.stderr.is_some() == (config.stderr is Pipe), //[C05]
+        r is Ok ==> final(w).s.launch.is_none() && r->Ok_0.child_state == (ChildState::Running { pid: final(w).s.child_pid, ext: () }) && r->Ok_0.detached == config.detached, //[C07,C13,C12,C14]
+        r is Ok ==> r->Ok_0.stdin.is_some() == (config.stdin is Pipe) && r->Ok_0.stdout.is_some() == (config.stdout is Pipe) && r->Ok_0.stderr.is_some() == (config.stderr is Pipe), //[C05,C13,C12,C14]
         // ... and a failed launch leaves no child behind, running or zombie, detached or not
-        r is Err && !final(w).s.status_read_failed ==> !final(w).s.child_unreaped, //[C07]
+        r is Err && !final(w).s.status_read_failed ==> !final(w).s.child_unreaped, //[C07,C14,C12]
 //@end
 }
 } // verus!
